@@ -307,8 +307,8 @@ namespace Pistache
 
         Entry* pop() override
         {
-            auto ret = Queue<T>::pop();
-
+            // Drain the notification before looking at the queue: an entry pushed after the
+            // look leaves the eventfd readable, so its wake-up can not be lost.
             if (isBound())
             {
                 uint64_t val;
@@ -327,7 +327,7 @@ namespace Pistache
                 }
             }
 
-            return ret;
+            return Queue<T>::pop();
         }
 
         Polling::Tag tag() const
